@@ -92,6 +92,12 @@ structure LocalClient where
 /-- `NewLocalClient()`. -/
 def LocalClient.new : LocalClient := {}
 
+/-- `lc.PackageVersions[pk]` used as a slice: nil (empty) when the key is missing. -/
+def LocalClient.versionsOf (lc : LocalClient) (pk : PackageKey) : List Version :=
+  match lookup lc.packageVersions pk with
+  | some vs => vs
+  | none => []
+
 /-- `if _, ok := lc.PackageVersions[d.PackageKey]; !ok { lc.PackageVersions[d.PackageKey] = []Version{} }`. -/
 def ensurePackage (pv : List (PackageKey × List Version)) (d : RequirementVersion) :
     List (PackageKey × List Version) :=
@@ -105,10 +111,7 @@ def replaceOrInsert (versions : List Version) (v : Version) : List Version :=
 /-- `AddVersion`. The second component is `.ok ()` on normal return. -/
 def addVersion (lc : LocalClient) (v : Version) (deps : List RequirementVersion) : LocalClient × Outcome Unit :=
   if v.attrs.deleted then (lc, .ok ()) else
-  -- `versions := lc.PackageVersions[v.PackageKey]` (nil when the key is missing)
-  let versions := match lookup lc.packageVersions v.key.pk with
-    | some vs => vs
-    | none => []
+  let versions := lc.versionsOf v.key.pk
   let versions1 := replaceOrInsert versions v
   match sortVersions versions1 with
   | .ok sorted =>
@@ -117,7 +120,7 @@ def addVersion (lc : LocalClient) (v : Version) (deps : List RequirementVersion)
     let imports := upsert lc.imports v.key deps
     let pv := deps.foldl ensurePackage pv
     ({ packageVersions := pv, imports := imports }, .ok ())
-  | _ =>
+  | .err | .panic =>
     -- panic inside SortVersions: only the in-place replacement is visible afterwards
     let pv := if versions.any (fun w => w.key = v.key) then upsert lc.packageVersions v.key.pk versions1
               else lc.packageVersions
@@ -135,10 +138,7 @@ inductive Obs where
 
 /-- `LocalClient.Version`. -/
 def version (lc : LocalClient) (vk : VersionKey) : Obs :=
-  let vs := match lookup lc.packageVersions vk.pk with
-    | some vs => vs
-    | none => []
-  match vs.find? (fun v => v.key = vk) with
+  match (lc.versionsOf vk.pk).find? (fun v => v.key = vk) with
   | some v => .attrs v.attrs
   | none => .notFound
 
@@ -161,7 +161,7 @@ def matchingVersions (lc : LocalClient) (vk : VersionKey) : Obs :=
   | some vs =>
     match matchReq vk vs with
     | .ok ms => .versions ms
-    | _ => .panicked
+    | .err | .panic => .panicked
 
 inductive Op where
   | add (v : Version) (deps : List RequirementVersion)
